@@ -1,6 +1,7 @@
 (* C18 - export followed by import reproduces the data (identifier level: ids are content hashes, modelled as terms). *)
 From Coq Require Import List ZArith Arith Bool.
 From Verif Require Import Backup BackupProofs.
+From Verif Require Defaults.
 Import ListNotations.
 
 (* the document import creates from an exported entry has the announced id, the source's collection and current
@@ -39,3 +40,12 @@ Lemma C18_one_level_refuted :
   let d := [a; b; c] in
   exists tb tc1 fk, newid 5 d 1 = Some tb /\ newid_one_level d 2 = Some tc1 /\ tc1 = Hid 0 [20%Z] [Some fk] /\ fk <> tb.
 Proof. exact one_level_refuted. Qed.
+
+(* values: nulls and default values. Creating from an input applies a field's default only where the input does not
+   mention the field; the export writes an explicit null for a null field that has a default, so the import re-creates
+   the stored document exactly (an export that leaves nulls out turns them into the default: pinned_export_refuted,
+   finding F56) *)
+Theorem C18_nulls_and_defaults_roundtrip : forall sch doc, length doc = length sch ->
+  Defaults.create sch (Defaults.export_fixed sch doc) = doc.
+Proof. exact Defaults.export_import_roundtrip. Qed.
+Print Assumptions C18_nulls_and_defaults_roundtrip.
